@@ -40,7 +40,7 @@ pub fn defs() -> Vec<PropDef> {
             }
             Ok(())
         },
-        rule: "(a) fd monitor over a sweep of decode/encode/hide/reveal/Display calls; (b1) HIST: every call history over a 12-call alphabet up to depth 3 (quick) / 4 (thorough) walked on the main thread and on a reused worker thread, each result compared with the same call made first in a pristine process, histories up to depth 2 (3) additionally each in its own fresh process; (b2) the message/AVP-list wire sweep as one long history, plain and disturbed; (c) SCHED: loom, all unordered pairs of the call alphabet on two threads (thorough: also selected triples on three), scheduling point at every Reader/Writer trait call, preemption bound 2 (quick) / 3 (thorough); (c2) the same pairs against a copy of the tree in which std::sync primitives are replaced by instrumented ones, adding a scheduling point at every lock / unlock / atomic operation of the library (best effort: skipped when that copy does not build); (d) 16 free-running OS threads; (e) every call and the whole sweep in pristine processes under an LD_PRELOAD shim that logs getenv / clock / getrandom / getcwd / socket / open calls (none may occur). states = choice-tree nodes + history prefixes + loom schedules; distinct non-trivial = distinct call histories with at least two calls + distinct schedules explored by loom (loom does not repeat a schedule) + distinct wire cases of the long history.",
+        rule: "(a) fd monitor over a sweep of decode/encode/hide/reveal/Display calls; (b1) HIST: every call history over a 12-call alphabet up to depth 3 (quick) / 4 (thorough) walked on the main thread and on a reused worker thread, each result compared with the same call made first in a pristine process, histories up to depth 2 (3) additionally each in its own fresh process; (b2) the message/AVP-list wire sweep as one long history, plain and disturbed; (b3) ~5000 representative inputs decoded in the long-running worker, amid ordinary traffic, and in three pristine processes (forward order, reverse order, amid ordinary traffic), all five must agree; (c) SCHED: loom, all unordered pairs of the call alphabet on two threads (thorough: also selected triples on three), scheduling point at every Reader/Writer trait call, preemption bound 2 (quick) / 3 (thorough); (c2) the same pairs against a copy of the tree in which std::sync primitives are replaced by instrumented ones, adding a scheduling point at every lock / unlock / atomic operation of the library (best effort: skipped when that copy does not build); (d) 16 free-running OS threads; (e) every call and the whole sweep in pristine processes under an LD_PRELOAD shim that logs getenv / clock / getrandom / getcwd / socket / open calls (none may occur). states = choice-tree nodes + history prefixes + loom schedules; distinct non-trivial = distinct call histories with at least two calls + distinct schedules explored by loom (loom does not repeat a schedule) + distinct wire cases of the long history.",
         bounds: |t| json!({"call_alphabet": 12, "history_depth": if t.thorough() {4} else {3}, "fresh_process_depth": if t.thorough() {3} else {2}, "loom": {"threads": if t.thorough() {"2 and 3"} else {"2"}, "preemption_bound": if t.thorough() {3} else {2}, "scheduling_points": "every Reader/Writer trait call made by the library (hide/reveal have none)"}, "free_running_threads": 16}),
         assumptions: &[
             "loom only sees thread switches at the seams (Reader/Writer calls); shared state read-modified-written entirely between two seams, or inside hide/reveal which use no caller-supplied reader or writer, is invisible to (c) and is covered only by (b) and (d)",
@@ -925,6 +925,11 @@ fn run_c19(ctx: &mut Ctx) {
     if ctx.shard == 1 % ctx.nshards {
         instrumented_sync(ctx, bound);
     }
+    // (b3) fresh versus warmed
+    if ctx.shard == 3 % ctx.nshards {
+        let desc = || json!({"kind":"fresh-vs-warmed"});
+        ctx.case(&desc, fresh_versus_warmed);
+    }
     // (e) environment access: the library must not consult the process environment
     if ctx.shard == 2 % ctx.nshards {
         environment_access(ctx);
@@ -939,6 +944,138 @@ fn run_c19(ctx: &mut Ctx) {
         ctx.guard("free-running");
     }
     ctx.samples.push(hist_json(&[1, 2, 0], "in-process"));
+}
+
+/// (b3) representative decode cases: every attribute number x payload lengths around its minimum
+/// x content classes as a bare record, the record menu, and the call alphabet's decode inputs
+fn representative_cases() -> Vec<(Entry, Vec<u8>)> {
+    let mut v: Vec<(Entry, Vec<u8>)> = Vec::new();
+    for attr in gen::attr_alphabet() {
+        let contents: &[gen::Content] = if gen::string_offset(attr).is_some() { &gen::STRING_CONTENT } else { &gen::BASIC_CONTENT };
+        for plen in gen::payload_lengths(attr, crate::ctx::Tier::Quick) {
+            if plen > 64 {
+                continue;
+            }
+            for c in contents {
+                v.push((Entry::AvpList, gen::avp_record(0x01, 0, attr, &gen::payload_for(attr, plen, *c))));
+            }
+        }
+        // longer strings with the multi-octet scalar at the very end (tails of word-wise scans)
+        if gen::string_offset(attr).is_some() {
+            for plen in 9..=24 {
+                for c in [gen::Content::U2, gen::Content::U3, gen::Content::Trunc, gen::Content::Overlong] {
+                    v.push((Entry::AvpList, gen::avp_record(0x01, 0, attr, &gen::payload_for(attr, plen, c))));
+                }
+            }
+        }
+    }
+    for r in gen::record_menu() {
+        v.push((Entry::AvpList, r.bytes.clone()));
+        v.push((Entry::Message, gen::control_message(&[gen::good_message_type(), r.bytes].concat())));
+    }
+    for (i, b) in inputs().into_iter().enumerate() {
+        v.push((if i == 5 { Entry::AvpList } else { Entry::Message }, b));
+    }
+    v
+}
+
+/// every case decoded amid ordinary traffic (16 well-formed control messages with plain ASCII
+/// names before each), so that anything adaptive sees a typical workload around it
+fn digests_amid_ordinary_traffic(cases: &[(Entry, Vec<u8>)]) -> Vec<u64> {
+    let ordinary: Vec<Vec<u8>> = (0..8)
+        .map(|k| {
+            let mut body = gen::good_message_type();
+            body.extend_from_slice(&gen::avp_record(0x01, 0, 7, format!("lac-{k}.example.net").as_bytes()));
+            body.extend_from_slice(&gen::avp_record(0x01, 0, 8, format!("Example Vendor {k}").as_bytes()));
+            body.extend_from_slice(&gen::avp_record(0x01, 0, 21, format!("5550{k}00").as_bytes()));
+            body.extend_from_slice(&gen::avp_record(0x01, 0, 9, &[0, k as u8 + 1]));
+            gen::control_message(&body)
+        })
+        .collect();
+    cases
+        .iter()
+        .enumerate()
+        .map(|(i, c)| {
+            for k in 0..16 {
+                let _ = result_hash(Entry::Message, &ordinary[(i + k) % ordinary.len()]);
+            }
+            result_hash(c.0, &c.1)
+        })
+        .collect()
+}
+
+fn digests_of(cases: &[(Entry, Vec<u8>)], reverse: bool) -> Vec<u64> {
+    let mut out = vec![0u64; cases.len()];
+    let order: Vec<usize> = if reverse { (0..cases.len()).rev().collect() } else { (0..cases.len()).collect() };
+    for i in order {
+        out[i] = result_hash(cases[i].0, &cases[i].1);
+    }
+    out
+}
+
+/// `vh c19digest fwd|rev`: digests of the representative cases in a pristine process
+pub fn digest_main(order: &str) -> i32 {
+    crate::ctx::install_panic_hook();
+    let cases = representative_cases();
+    let d = if order == "amid" { digests_amid_ordinary_traffic(&cases) } else { digests_of(&cases, order == "rev") };
+    println!("{}", d.iter().map(|x| format!("{x:016x}")).collect::<Vec<_>>().join(","));
+    0
+}
+
+/// (b3) the representative cases decoded in this process, which by now has made millions of
+/// calls, must give what two pristine processes give (decoding them in forward and in reverse
+/// order): anything else means a result depends on how much, or what, was decoded before.
+fn fresh_versus_warmed(ctx: &mut Ctx) {
+    let cases = representative_cases();
+    let warmed = digests_of(&cases, false);
+    let Ok(exe) = std::env::current_exe() else { return };
+    let fresh = |order: &str| -> Option<Vec<u64>> {
+        let out = std::process::Command::new(&exe).arg("c19digest").arg(order).stdin(std::process::Stdio::null()).output().ok()?;
+        let text = String::from_utf8_lossy(&out.stdout).to_string();
+        let line = text.lines().last()?;
+        let v: Vec<u64> = line.split(',').filter_map(|x| u64::from_str_radix(x.trim(), 16).ok()).collect();
+        if v.len() == cases.len() {
+            Some(v)
+        } else {
+            None
+        }
+    };
+    let amid = digests_amid_ordinary_traffic(&cases);
+    let _unused = 0;
+    let ordinary: Vec<Vec<u8>> = (0..0)
+        .map(|k| {
+            let mut body = gen::good_message_type();
+            body.extend_from_slice(&gen::avp_record(0x01, 0, 7, format!("lac-{k}.example.net").as_bytes()));
+            body.extend_from_slice(&gen::avp_record(0x01, 0, 8, format!("Example Vendor {k}").as_bytes()));
+            body.extend_from_slice(&gen::avp_record(0x01, 0, 21, format!("5550{k}00").as_bytes()));
+            body.extend_from_slice(&gen::avp_record(0x01, 0, 9, &[0, k as u8 + 1]));
+            gen::control_message(&body)
+        })
+        .collect();
+    let _ = (&ordinary, _unused);
+    let (Some(f), Some(r), Some(fa)) = (fresh("fwd"), fresh("rev"), fresh("amid")) else {
+        ctx.capped = Some("fresh-process digests could not be obtained".into());
+        return;
+    };
+    let mut reported = 0;
+    for i in 0..cases.len() {
+        if (warmed[i] != f[i] || f[i] != r[i] || amid[i] != f[i] || fa[i] != f[i]) && reported < 3 {
+            reported += 1;
+            let which = if f[i] != r[i] { "two pristine processes decoding the cases in different orders disagree" } else { "this long-running process disagrees with a pristine process" };
+            let (entry, bytes) = (&cases[i].0, &cases[i].1);
+            ctx.violation(
+                format!("C19 fresh-versus-warmed {}", if f[i] != r[i] { "order-dependent" } else { "history-dependent" }),
+                format!("input {}: {which}", hex(&bytes[..bytes.len().min(48)])),
+                bytes.len(),
+                || json!({"kind":"fresh-vs-warmed","index":i,"entry": if *entry == Entry::Message {"message"} else {"avps"},"hex":hex(bytes)}),
+            );
+        }
+    }
+    ctx.executions += 20 * cases.len() as u64;
+    ctx.states += cases.len() as u64;
+    ctx.transitions += cases.len() as u64;
+    ctx.guard("fresh-versus-warmed");
+    ctx.extra.insert("fresh_versus_warmed_cases".into(), json!(cases.len()));
 }
 
 /// (e) Run every call of the alphabet, and the whole silence sweep, each in a pristine process
@@ -998,9 +1135,9 @@ fn environment_access(ctx: &mut Ctx) {
     ctx.extra.insert("environment_access_monitor".into(), json!({"processes": runs, "intercepted": ["getenv", "secure_getenv", "clock_gettime", "time", "gettimeofday", "getrandom", "getcwd", "socket", "open", "openat"]}));
 }
 
-/// 16 OS threads making the calls of the alphabet concurrently for `millis` ms (decode-heavy mix:
-/// threads 0..8 only decode, the others run the whole alphabet); every result is compared with
-/// the sequential baseline. Not exhaustive: a complement for races that have no scheduling point
+/// 16 OS threads for `millis` ms: threads 0..8 only decode (alphabet calls), 8..12 run the whole
+/// alphabet, 12..16 encode and decode ever-changing control messages checked against the reference
+/// codec; every other result is compared with the sequential baseline. Not exhaustive: a complement for races that have no scheduling point
 /// loom can see. A mismatch is a concrete wrong result of the real code, so reporting it is sound.
 fn free_running(base: &[String], millis: u64) -> (u64, Option<String>) {
     let stop = std::sync::atomic::AtomicBool::new(false);
@@ -1015,6 +1152,23 @@ fn free_running(base: &[String], millis: u64) -> (u64, Option<String>) {
                     let mut bad = Vec::new();
                     let mut round = 0usize;
                     while !stop.load(Ordering::Relaxed) {
+                        if t >= 12 {
+                            // ever-changing values (caches, pools and interning tables only matter
+                            // when many different values are in flight): encode and decode a
+                            // control message whose contents depend on thread and iteration and
+                            // compare with the reference codec
+                            if let Some(b) = varied_roundtrip(t, round) {
+                                bad.push(format!("thread {t}, iteration {round}: {b}"));
+                                stop.store(true, Ordering::Relaxed);
+                                break;
+                            }
+                            count.fetch_add(1, Ordering::Relaxed);
+                            round += 1;
+                            if round % 64 == 0 && t0.elapsed().as_millis() as u64 > millis {
+                                stop.store(true, Ordering::Relaxed);
+                            }
+                            continue;
+                        }
                         let c = if t < 8 { [0usize, 1, 2, 3, 5, 1, 0, 5][(round + t) % 8] } else { (round + t) % N_CALLS };
                         let r = call(c, &NoTick);
                         count.fetch_add(1, Ordering::Relaxed);
@@ -1035,6 +1189,47 @@ fn free_running(base: &[String], millis: u64) -> (u64, Option<String>) {
         hs.into_iter().flat_map(|h| h.join().unwrap_or_default()).collect()
     });
     (count.load(Ordering::Relaxed), bad.into_iter().next())
+}
+
+/// One encode + decode of a control message with 3..6 AVPs whose values depend on (t, round),
+/// checked against the reference codec. Returns a description of the first disagreement.
+fn varied_roundtrip(t: usize, round: usize) -> Option<String> {
+    let x = (t as u64).wrapping_mul(0x9e3779b97f4a7c15) ^ (round as u64).wrapping_mul(0xbf58476d1ce4e5b9);
+    let n = 3 + (x % 4) as usize;
+    let mut avps = vec![SAvp::Plain { attr: 0, val: SVal::MessageType(spec::MESSAGE_TYPE_CODES[(x >> 8) as usize % 14]) }];
+    for k in 0..n {
+        let y = x.rotate_left(7 * k as u32 + 3);
+        avps.push(match y % 5 {
+            0 => SAvp::Plain { attr: 9, val: SVal::U16(y as u16) },
+            1 => SAvp::Plain { attr: 7, val: SVal::Bytes(y.to_be_bytes()[..1 + (y >> 40) as usize % 8].to_vec()) },
+            2 => SAvp::Plain { attr: 8, val: SVal::Str(format!("v{:x}", y & 0xffffff)) },
+            3 => SAvp::Plain { attr: 15, val: SVal::U32(y as u32) },
+            _ => SAvp::Plain { attr: 1, val: SVal::ResultCode { code: y as u16, error: Some(((y >> 20) as u16 % 9, Some(format!("e{}", y & 0xfff)))) } },
+        });
+    }
+    let m = SMessage::Control { length: 0, tid: x as u16, sid: (x >> 16) as u16, ns: (x >> 32) as u16, nr: (x >> 48) as u16, avps };
+    let mut want = Vec::new();
+    spec::encode(&m, &mut want).ok()?;
+    let c = bridge::message_to_crate(&m)?;
+    let got = guarded(|| {
+        let mut w = rl2tp::common::VecWriter::new();
+        c.write(&mut w);
+        w.data
+    });
+    match got {
+        Ok(b) if b == want => (),
+        Ok(b) => return Some(format!("encoding of a control message differs from the reference: {} vs {}", clip(&hex(&b)), clip(&hex(&want)))),
+        Err(p) => return Some(format!("encode panicked at {}: {}", p.0, p.1)),
+    }
+    let (r, _) = crate::run::decode_msg(crate::run::ReaderKind::Slice, &want, Some(spec::OPT_STRICT), false);
+    let expect = match spec::decode(&want, spec::OPT_STRICT).verdict {
+        spec::Verdict::Accept(v) => v,
+        _ => return None,
+    };
+    match r {
+        Ok(Ok(v)) if v == expect => None,
+        other => Some(format!("decoding {} gave {other:?}, reference {expect:?}", clip(&hex(&want)))),
+    }
 }
 
 fn replay_c19(ctx: &mut Ctx, v: &Value) {
@@ -1100,6 +1295,12 @@ fn replay_c19(ctx: &mut Ctx, v: &Value) {
                 }
             }
             let _ = std::fs::remove_file(&inputs);
+        }
+        Some("fresh-vs-warmed") => {
+            // warm this process up with the wire sweep's long history first
+            long_history(ctx);
+            ctx.violations.clear();
+            fresh_versus_warmed(ctx);
         }
         Some("environment") => {
             environment_access(ctx);
